@@ -1082,9 +1082,27 @@ def neighbours(case, rng):
   if case.get('via'):
     for fb in range(0, 5):
       c = copy.deepcopy(case); c['fn_batch'] = fb if c['target'] else 0; yield c
+    if case['via'] == 'apply' and case['batches']:      # the same run with one failing call, with and without skipping
+      for k, grp in enumerate(call_groups(case)):
+        for skip in (True, False):
+          if grp:
+            c = copy.deepcopy(case); c['poison'] = [grp[0][0]]; c['ignore_error'] = skip; yield c
   else:
-    for p in (None, 0, 5):
-      c = copy.deepcopy(case); c['pad'] = p; yield c
+    for p in (None, 0, 5, 'i-1', 'f0.5', 'bF', 's'):
+      c = copy.deepcopy(case); c['pad'] = p
+      if not c['batches'] or pad_compatible(p, c['batches'][0]):
+        yield c
+    for fam in FAMS:      # the same stream with other element types
+      c = copy.deepcopy(case)
+      for bt in c['batches']:
+        for col in bt:
+          is_arr = col['k'] == 'array' or col['k'] in ND_TAIL
+          f = arr_fam(col['k'], fam) if is_arr else ('float' if fam == 'f32' else fam)
+          col.pop('e', None)
+          if f != 'int' and col['k'] != 'other':
+            col['e'] = f
+      if not c['batches'] or pad_compatible(c['pad'], c['batches'][0]):
+        yield c
   for i in range(len(case['batches'])):
     c = copy.deepcopy(case); del c['batches'][i]; yield c
   for _ in range(200):
